@@ -72,9 +72,15 @@ def run(tier, seed):
                 "axisswap shares with adapt (384 full signed permutations) and the angular unit changes adapt shares with "
                 "unitconvert; the real operators must agree bit for bit in both directions. distinct_nontrivial = distinct "
                 "definitions twin-executed + shared mappings." % len(catdefs.DEFS))
-    res.assumptions = ["NOT decided (floating-point route pairs without model content): tmerc vs btmerc, cart vs the ellipsoid's own "
-                       "conversion, wrapper operators vs ellipsoid methods, series vs closed forms / quadrature",
-                       "error texts may name the provider and are not compared"]
+    res.assumptions = ["error texts may name the provider and are not compared"]
+    # (c) the numeric route pairs the statement names (spec/Routes.tla)
+    import c14routes
+    summary, groups = c14routes.route_pairs(tier, seed, res)
+    if summary:
+        res.distinct_nontrivial += summary["distinct_pair_shape_ellipsoid_direction"]
+        res.samples.append(summary["sample"])
+    res.rule += (" (c) spec/Routes.tla: the catalogue of the route pairs the statement names, with shared parameter shapes, common "
+                 "domain, lattice, accuracy class and ellipsoid set; TLC enumerates every obligation, the harness runs both routes.")
     return res.finish()
 
 
@@ -88,4 +94,7 @@ def replay(path):
             return 1
         print("replay passes on the current tree")
         return 0
+    if v.get("suite") == "route-pairs":
+        import c14routes
+        return c14routes.replay(path)
     return run("quick", 1)
